@@ -99,23 +99,28 @@ def single(fn):
         return False, type(ex).__name__
 
 
-def call_unary(x, f):
+OPT_KW = {"": {}, "deg": {"unit": "deg"}, "xyz": {"order": "xyz"}, "yxz": {"order": "yxz"},
+          "xyz+deg": {"order": "xyz", "unit": "deg"}, "flip": {"flip": True}, "twist": {"twist": True}}
+
+
+def call_unary(x, f, opt=""):
     a = getattr(x, f)
-    return a() if callable(a) else a
+    return a(**OPT_KW[opt]) if callable(a) else a
 
 
 def run_case(j, e):
     op, L, R, out = e["op"], e["l"], e["r"], e["out"]
     doc = out["doc"]
     lc, m, rc, n = L["c"], L["n"], R["c"], R["n"]
-    cid = (op, lc, rc, m, n)
-    feat = "%s;len(%d,%d)" % (rc, m, n)
+    opt = R.get("opt", "")
+    cid = (op, lc, rc, m, n, opt)
+    feat = "%s%s;len(%d,%d)" % (rc, ("[" + opt + "]") if opt else "", m, n)
     site = "%s.%s" % (lc, op)
     if doc["k"] in ("unspec",):
         j.skip("not specified (empty operand, undocumented cell or method not named by C09)")
         if op not in OPS and m >= 1:       # extra per-value methods: explored and reported
             x = inject(lc, left_ids(m))
-            ok, r = single(lambda: call_unary(x, op))
+            ok, r = single(lambda: call_unary(x, op, opt))
             j.count("explored_extra_%s" % ("ok" if ok else "raises"))
         return
     if doc["k"] == "raise" and doc.get("e") != "ValueError":
@@ -137,13 +142,26 @@ def run_case(j, e):
     elif op == "interp":
         x = inject(lc, [7])
         svec = [0.1 + 0.2 * i for i in range(n)]
-        full = lambda: x.interp(svec)                                   # noqa: E731
-        one = lambda i, jx: x.interp(svec[jx - 1])                      # noqa: E731
+        kw = {}
+        if "start" in opt:
+            kw["start"] = inject(lc, [90])
+        if "dest" in opt:
+            # a destination in the opposite hemisphere (negative inner product): the arc then
+            # depends on `shortest`
+            far = inject(lc, [200])
+            far.data[0] = -far.data[0]
+            kw["dest"] = far
+        if "shortest" in opt:
+            kw["shortest"] = True
+            if "dest" not in opt:
+                x.data[0] = -x.data[0]
+        full = lambda: x.interp(svec, **kw)                             # noqa: E731
+        one = lambda i, jx: x.interp(svec[jx - 1], **kw)                # noqa: E731
     else:
         x = inject(lc, left_ids(m))
         xs = [inject(lc, [k]) for k in left_ids(m)]
-        full = lambda: call_unary(x, op)                                # noqa: E731
-        one = lambda i, jx: call_unary(xs[i - 1], op)                   # noqa: E731
+        full = lambda: call_unary(x, op, opt)                           # noqa: E731
+        one = lambda i, jx: call_unary(xs[i - 1], op, opt)              # noqa: E731
     # ---- length mismatch must raise ValueError
     if doc["k"] == "raise":
         ok, r = single(full)
@@ -186,7 +204,7 @@ def run(tier):
     r = run_tlc("MC_Dispatch", "Dispatch_c09", timeout=300)
     seen = set()
     for e in r.json:
-        key = (e["op"], e["l"]["c"], e["l"]["n"], e["r"]["c"], e["r"]["n"])
+        key = (e["op"], e["l"]["c"], e["l"]["n"], e["r"]["c"], e["r"]["n"], e["r"].get("opt", ""))
         if key in seen:
             continue
         seen.add(key)
